@@ -10,7 +10,7 @@
    damage classes of Framing/Valid.v.  The constants are tied to the source in Framing/GenOk.v.
    In-block decoding is an oracle value per block (Ok objs | Err | Panic), see checks.d/C06.json. *)
 From Coq Require Import ZArith List Bool Lia.
-From Verif Require Import Framing.Model Framing.Valid Framing.Proofs Framing.GenOk
+From Verif Require Import Framing.Model Framing.Valid Framing.Proofs Framing.GenOk Framing.Bytes C06.ProofsBytes
                           C06.Spec C06.Proofs C06.ProofsDamage C06.InBlock C06.Bridge.
 Import ListNotations.
 Open Scope Z_scope.
@@ -30,6 +30,39 @@ Theorem C06_truncation_deliveries : forall (T : Type) (fs : list (frame T)) (k :
   scan current fs k = Result (spec_deliveries (frames_before fs k)) (cut_outcome fs k).
 Proof. exact (@scan_cut). Qed.
 Print Assumptions C06_truncation_deliveries.
+
+(* 1b. The same, literally over BYTES.  The file is the concatenation, block by block, of the 4-byte
+   big-endian BlobHeader length, the BlobHeader bytes and the Blob bytes; [b_scan] reads bytes off
+   the front (io.ReadFull), decodes the prefix (binary.BigEndian.Uint32) and applies proto.Unmarshal
+   as ARBITRARY functions [parse_hdr], [parse_blob] of the bytes read.  For EVERY byte offset k of
+   the file, scanning the first k bytes delivers the blocks wholly before k and ends without error
+   iff k is a block boundary. *)
+Theorem C06_truncation_every_byte_offset :
+  forall (T : Type) (parse_hdr : list Z -> hdr) (parse_blob : list Z -> blobp T)
+         (bfs : list bframe) (k : nat),
+  valid_bytes parse_hdr parse_blob bfs -> (k <= length (encode bfs))%nat ->
+  let fs := map (abstract parse_hdr parse_blob) bfs in
+  objects (b_scan parse_hdr parse_blob current (firstn k (encode bfs))) = objs_before fs (Z.of_nat k) /\
+  out (b_scan parse_hdr parse_blob current (firstn k (encode bfs)))
+  = (if is_boundary fs (Z.of_nat k) then Done else Failed).
+Proof. exact (@truncation_bytes_objects). Qed.
+Print Assumptions C06_truncation_every_byte_offset.
+
+(* the refinement behind it: on every prefix of the bytes of aligned frames (prefix = header length,
+   an in-range datasize = blob length; anything else may be damaged) the byte-level scan IS the
+   frame-level scan with avail = k, for both variants of the code *)
+Theorem C06_bytes_refine :
+  forall (T : Type) (parse_hdr : list Z -> hdr) (parse_blob : list Z -> blobp T) v
+         (bfs : list bframe) (k : nat),
+  Forall (aligned parse_hdr) bfs -> Forall (fun bf => 0 <= bf_pfx bf) bfs ->
+  (k <= length (encode bfs))%nat ->
+  b_scan parse_hdr parse_blob v (firstn k (encode bfs))
+  = scan v (map (abstract parse_hdr parse_blob) bfs) (Z.of_nat k).
+Proof. exact (@bytes_refine). Qed.
+Print Assumptions C06_bytes_refine.
+
+Theorem C06_be32_roundtrip : forall n, 0 <= n < 4294967296 -> be32_dec (be32 n) = n.
+Proof. exact be32_roundtrip. Qed.
 
 (* 2. Every enumerated damage class (oversized prefix, unparsable BlobHeader, datasize >= 32 MiB,
       negative, or reaching past the end of the input, unparsable Blob, unexpected block type,
@@ -257,3 +290,27 @@ Module InBlockExamples.
   Example bad_plain_result : scan_result cfg_all dstate0 bad_plain = Err E_PLAIN.
   Proof. vm_compute. reflexivity. Qed.
 End InBlockExamples.
+
+(* byte level: a two-block file of 20 bytes, cut after the second block's prefix *)
+Module BytesExample.
+  Definition ph (l : list Z) : hdr :=
+    match l with [1; n] => HdrOk TyData n | [0; n] => HdrOk TyHeader n | _ => HdrBad end.
+  Definition pb (l : list Z) : blobp Z :=
+    match l with
+    | 7 :: objs => BlobOk (Blob EncRaw (PData (DOk objs)))
+    | [9] => BlobOk (Blob EncRaw (PHeader (HOk true)))
+    | _ => BlobBad
+    end.
+  Definition file : list bframe := [BFrame 2 [0; 1] [9]; BFrame 2 [1; 3] [7; 41; 42]].
+  Example file_bytes : encode file = [0; 0; 0; 2; 0; 1; 9;  0; 0; 0; 2; 1; 3; 7; 41; 42].
+  Proof. vm_compute. reflexivity. Qed.
+  Example file_valid : valid_file (map (abstract ph pb) file) = true.
+  Proof. vm_compute. reflexivity. Qed.
+  Example whole : b_scan ph pb current (encode file) = Result [(7, [41; 42])] Done.
+  Proof. vm_compute. reflexivity. Qed.
+  Example cut_after_prefix : b_scan ph pb current (firstn 11 (encode file)) = Result [] Failed
+                             /\ b_scan ph pb legacy (firstn 11 (encode file)) = Result [] Done.
+  Proof. vm_compute. split; reflexivity. Qed.
+  Example cut_on_boundary : b_scan ph pb current (firstn 7 (encode file)) = Result [] Done.
+  Proof. vm_compute. reflexivity. Qed.
+End BytesExample.
